@@ -70,6 +70,14 @@ def extra_edits(root, rnd, kind):
         for el in root.iter():   # every reference: members of messages / components / groups, and group count fields
             if el.tag in ("field", "group") and el.get("name") == old and el is not f:
                 el.set("name", new)
+    elif kind == "moveframing":
+        # a framing field of the header / trailer that is not in its customary place (it stays excluded from the members)
+        o = root.find(rnd.choice(["header", "header", "trailer"]))
+        fr = [m for m in list(o) if m.get("name") in FRAMING]
+        if fr:
+            m = rnd.choice(fr)
+            o.remove(m)
+            o.insert(rnd.randint(0, len(list(o))), m)
     elif kind == "addfield":
         fields = root.find("fields")
         nums = {f.get("number") for f in fields}
@@ -157,8 +165,8 @@ def check(prop, tier, seed):
         p = os.path.join(xdir, "variant-%d.xml" % i)
         ET.ElementTree(root).write(p)
         jobs.append((gendrv, fixgen, p, types, "variant-%d:%s" % (i, "+".join(e["op"] for e in sc_["script"]) or "none"), sc_["accept"], None, True))
-    for i in range(6 if quick else 60):
-        kind = ["rename", "addfield", "addmessage", "typemap"][i % 4]
+    for i in range(10 if quick else 80):
+        kind = ["rename", "addfield", "addmessage", "typemap", "moveframing"][i % 5]
         p = os.path.join(xdir, "extra-%d.xml" % i)
         tp = small_t
         if kind == "typemap":
